@@ -697,10 +697,14 @@ func usedVars(d *hx.Doc, sels []*hx.Sel, seen map[string]bool, out map[string]bo
 
 // GenDoc draws a document valid against the schema, plus variable values.
 func GenDoc(t *rapid.T, s *hx.Schema, p Profile, multiOp bool) (*hx.Doc, []hx.KV) {
+	return genDocPrefixed(t, s, p, multiOp, "")
+}
+
+func genDocPrefixed(t *rapid.T, s *hx.Schema, p Profile, multiOp bool, pre string) (*hx.Doc, []hx.KV) {
 	g := &docGen{t: t, s: s, p: p, doc: &hx.Doc{}, vars: map[string]*hx.VarDef{}, vals: map[string]hx.Val{}, budget: 40, building: map[string]bool{}}
 	nOps := 1
 	if multiOp {
-		nOps = rapid.IntRange(1, 3).Draw(t, "nOps")
+		nOps = rapid.IntRange(1, 3).Draw(t, pre+"nOps")
 	}
 	depth := p.MaxDepth
 	if depth == 0 {
@@ -708,19 +712,19 @@ func GenDoc(t *rapid.T, s *hx.Schema, p Profile, multiOp bool) (*hx.Doc, []hx.KV
 	}
 	for i := 0; i < nOps; i++ {
 		op := &hx.Op{Type: "query"}
-		if s.Type("Mutation") != nil && rapid.IntRange(0, 3).Draw(t, fmt.Sprintf("op%dmut", i)) == 0 {
+		if s.Type("Mutation") != nil && rapid.IntRange(0, 3).Draw(t, fmt.Sprintf("%sop%dmut", pre, i)) == 0 {
 			op.Type = "mutation"
 		}
-		if nOps > 1 || rapid.Bool().Draw(t, "named") {
+		if nOps > 1 || rapid.Bool().Draw(t, pre+"named") {
 			op.Name = fmt.Sprintf("Op%d", i)
 		} else {
-			op.Anon = rapid.Bool().Draw(t, "anon")
+			op.Anon = rapid.Bool().Draw(t, pre+"anon")
 		}
 		rootType := "Query"
 		if op.Type == "mutation" {
 			rootType = "Mutation"
 		}
-		op.Sels = g.genSels(rootType, depth, fmt.Sprintf("op%d", i))
+		op.Sels = g.genSels(rootType, depth, fmt.Sprintf("%sop%d", pre, i))
 		g.doc.Ops = append(g.doc.Ops, op)
 	}
 	// declare exactly the variables each operation uses
@@ -750,7 +754,7 @@ func GenDoc(t *rapid.T, s *hx.Schema, p Profile, multiOp bool) (*hx.Doc, []hx.KV
 		order = append(order, fmt.Sprintf("f%d", i))
 	}
 	if len(order) > 1 {
-		order = rapid.Permutation(order).Draw(t, "order")
+		order = rapid.Permutation(order).Draw(t, pre+"order")
 	}
 	g.doc.Order = order
 	g.doc.Number()
@@ -806,4 +810,9 @@ func GenSelection(t *rapid.T, s *hx.Schema, typeName string, p Profile, label st
 	}
 	sels := g.genSels(typeName, depth, label)
 	return sels, g.doc.Frags
+}
+
+// GenDocLabeled is GenDoc with a label prefix so that several documents can be drawn in one rapid case.
+func GenDocLabeled(t *rapid.T, s *hx.Schema, p Profile, multiOp bool, prefix string) (*hx.Doc, []hx.KV) {
+	return genDocPrefixed(t, s, p, multiOp, prefix)
 }
